@@ -411,9 +411,11 @@ class PiecewiseConstantBirthDeath(Distribution):
             )
 
         mask = (N > 0).logical_and(rho > 0.0)
-        if torch.any(mask):
-            p = torch.masked_select(N, mask) * torch.masked_select(rho, mask).log()
-            log_p += p.squeeze() if log_p.dim() == 0 else p
+        log_p += torch.where(
+            mask,
+            N * torch.where(mask, rho, torch.ones_like(rho)).log(),
+            torch.zeros_like(rho),
+        ).sum(-1)
 
         if self.removal_probability is not None:
             log_p += torch.tensor(2.0).log() * (taxa_shape[-1] - 1)
